@@ -874,6 +874,27 @@ func TestC13(t *testing.T) {
 		}
 		run(kindSets[ki], seq, []string{kn[ki], "random"})
 	}
+	// an envelope with a STATUS but no trailer (explicit OK with a message; an error code) does not end a stream: the message it
+	// carries and everything behind it is still delivered, the end comes with the trailer
+	for si, st := range []*[2]int64{{0, 0}, {3, 9}} {
+		for v := 0; v < 2; v++ {
+			if idx%nsh != shard {
+				idx++
+				continue
+			}
+			acts := []CAct{{Op: "stream"}, {Op: "deliver", Env: &EnvSpec{Call: 0, Hdr: "ok:0", Status: st, Body: i64(4501), Trl: "none"}}, {Op: "recv", C: 0},
+				{Op: "deliver", Env: &EnvSpec{Call: 0, Hdr: "ok:0", Body: i64(4502), Trl: "none"}}, {Op: "recv", C: 0}}
+			if v == 1 {
+				acts = append(acts, CAct{Op: "deliver", Env: &EnvSpec{Call: 0, Hdr: "ok:0", Status: &[2]int64{0, 0}, Trl: "ok:0"}})
+			}
+			acts = append(acts, CAct{Op: "recv", C: 0}, CAct{Op: "failread"}, CAct{Op: "recv", C: 0})
+			sc := clientScenario{Acts: acts, WithStats: idx%2 == 0, Tags: []string{"status-without-trailer-is-not-final", fmt.Sprintf("status=%d", si)}}
+			if want(idx) {
+				runClientScenarioAs(t, idx, "c13", sc, em, "C13Step", nil)
+			}
+			idx++
+		}
+	}
 	// a stream that is not being read receives message, message and its FINAL envelope (one in the loop's hand, one queued,
 	// the final one in the read loop's hands), then its context ends without the caller draining anything; then a probe
 	// call and its reply, the read failure, another call: the connection's read loop must not stay behind the dead stream
